@@ -167,9 +167,11 @@ PROC_OPS = ['proc-get', 'proc-set', 'proc-del']
 
 
 DIRECT = ['direct-remove-PA', 'direct-remove-PB', 'direct-add-PA', 'direct-add-PB']
+DIRECT_COMPS = ['direct-remove-A', 'direct-remove-B', 'direct-add-A', 'direct-add-B']
+FOCUS_COMP_OPS = ['ref-get', 'ref-set', 'ref-del', 'get_component', 'has_component']
 
 
-def apply_direct(op, w, tag):
+def apply_direct(op, w, tag, e=None):
     """an operation issued through the World itself, identically in both worlds (not through the shorthand)"""
     if op == 'direct-remove-PA':
         w.remove_processor(PA)
@@ -179,16 +181,27 @@ def apply_direct(op, w, tag):
         w.add_processor(PA(tag=tag))
     elif op == 'direct-add-PB':
         w.add_processor(PB(tag=tag))
+    elif op == 'direct-remove-A':
+        w.remove_component(e, A)
+    elif op == 'direct-remove-B':
+        w.remove_component(e, B)
+    elif op == 'direct-add-A':
+        w.add_component(e, A(tag=tag))
+    elif op == 'direct-add-B':
+        w.add_component(e, B(tag=tag))
 
 
 def h_twin(sp, steps=1, second_types=3, focus=None):
     bits = {}
     for e in IDS:
         for T in (TYPES if e == IDS[0] else TYPES[:second_types]):
-            bits[e, T] = bool(sp.flag('has[%d,%s]' % (e, T.__name__))) if focus is None else False
+            if focus is None or (focus == 'comps' and e == IDS[0] and T is not X):
+                bits[e, T] = bool(sp.flag('has[%d,%s]' % (e, T.__name__)))
+            else:
+                bits[e, T] = False
     dead = [focus is None and any(b for (e2, _), b in bits.items() if e2 == e) and bool(sp.flag('dead%d' % e))
             for e in IDS]
-    procs = [bool(sp.flag('proc%d' % i)) for i in range(2)]
+    procs = [focus != 'comps' and bool(sp.flag('proc%d' % i)) for i in range(2)]
     ce = sp.pick(IDS, 'controller-entity') if focus is None else IDS[0]
     detached = bool(sp.flag('controller-detached')) if focus is None else False
     if detached:
@@ -204,20 +217,28 @@ def h_twin(sp, steps=1, second_types=3, focus=None):
              'controller.entity=%r world ok=%s, real owner %r' % (c2.entity, c2.world is w2, ce))
     sp.check(snapshot(w1) == snapshot(w2), 'twin-build', 'twin worlds differ after building')
     for step in range(steps):
-        kind = sp.choose(3, 'kind%d' % step) if focus is None else 2 + sp.choose(2, 'kind%d' % step)
+        if focus is None:
+            kind = sp.choose(3, 'kind%d' % step)
+        elif focus == 'procs':
+            kind = 2 + sp.choose(2, 'kind%d' % step)
+        else:       # 'comps': a reference / query shorthand, or the same plain World call on the controller's entity in both worlds
+            kind = (4, 1, 3)[sp.choose(3, 'kind%d' % step)]
         if kind == 3:
-            op = sp.pick(DIRECT, 'op%d' % step)
+            op = sp.pick(DIRECT if focus != 'comps' else DIRECT_COMPS, 'op%d' % step)
             sp.note('%s (plain World call in both worlds)' % op)
-            apply_direct(op, w1, 'd%d' % step)
-            apply_direct(op, w2, 'd%d' % step)
+            apply_direct(op, w1, 'd%d' % step, ce)
+            apply_direct(op, w2, 'd%d' % step, ce)
             sp.cover('direct-world-op')
             sp.check(snapshot(w1) == snapshot(w2), 'effect', 'worlds differ after the same direct World call')
             continue
         if kind == 0:
             op = sp.pick(COMP_OPS, 'op%d' % step)
             T = sp.pick(TYPES, 't%d' % step)
+        elif kind == 4:
+            op = sp.pick(FOCUS_COMP_OPS, 'op%d' % step)
+            T = sp.pick([A, B], 't%d' % step)
         elif kind == 1:
-            op = sp.pick(NULLARY, 'op%d' % step)
+            op = sp.pick(NULLARY, 'op%d' % step) if focus != 'comps' else 'ref-set-sub'
             T = None
         else:
             op = sp.pick(PROC_OPS, 'op%d' % step)
@@ -289,7 +310,25 @@ def h_proto(sp, n_types=3, same_name=True):
             return t(source='method', via=label)
         return method
 
+    falsy_entries = bool(sp.flag('falsy-dict-entries'))
+
+    class FalsyCallable:
+        """a callable init_methods entry whose truth value is False (eg. an empty component pool with __len__)"""
+
+        def __init__(self, label):
+            self.label = label
+
+        def __call__(self, t):
+            return t(source='dict', via=self.label)
+
+        def __len__(self):
+            return 0
+
     def mk_func(label):
+        if falsy_entries:
+            sp.cover('falsy-dict-entry')
+            return FalsyCallable(label)
+
         def func(t):
             return t(source='dict', via=label)
         func.label = label
@@ -447,16 +486,18 @@ HARNESSES = {
                  required=COMP_OPS + NULLARY + PROC_OPS + ['detached-controller', 'controller-of-empty-entity']),
     'proto': dict(fn=h_proto, nontrivial=['from-dict', 'from-method', 'from-sub-method', 'name-clash', 'sub-init_methods'],
                   required=['from-dict', 'from-method', 'from-sub-method', 'from-default', 'name-clash', 'sub-init_methods',
-                            'type-listed-twice']),
+                            'type-listed-twice', 'falsy-dict-entry']),
     'update': dict(fn=h_update, nontrivial=['relayed'], required=['relayed'], split=False),
 }
 TIERS = {
     'quick': [('update', dict(max_listeners=2, frames=2, adder=True), dict(required=['relayed', 'listener-adds-processor'])),
               ('twin', dict(steps=1, second_types=1)),
               ('twin', dict(steps=3, focus='procs'), dict(required=PROC_OPS + ['direct-world-op'])),
+              ('twin', dict(steps=3, focus='comps'), dict(required=FOCUS_COMP_OPS + ['ref-set-sub', 'direct-world-op'])),
               ('proto', dict(n_types=2)), ('update', dict())],
     'thorough': [('update', dict(max_listeners=3, frames=3, adder=True), dict(required=['relayed', 'listener-adds-processor'])),
-                 ('twin', dict(steps=2)), ('twin', dict(steps=4, focus='procs'), dict(required=PROC_OPS + ['direct-world-op'])), ('proto', dict(n_types=3)), ('update', dict(max_listeners=4, frames=3))],
+                 ('twin', dict(steps=2)), ('twin', dict(steps=4, focus='procs'), dict(required=PROC_OPS + ['direct-world-op'])),
+                 ('twin', dict(steps=4, focus='comps'), dict(required=FOCUS_COMP_OPS + ['ref-set-sub', 'direct-world-op'])), ('proto', dict(n_types=3)), ('update', dict(max_listeners=4, frames=3))],
 }
 BUDGET_S = {'quick': 150, 'thorough': 1500}
 EXPLANATION = (
